@@ -58,14 +58,15 @@ bool runIcp(double tx, double ty, double th, Eigen::Matrix3d & est, bool & found
     vf::Rng shuffle(0xC06ULL);                        // ... or in an arbitrary order (a point set has no order)
     for (size_t k = tgt.size() - 1; k > 0; --k) {std::swap(tgt[k], tgt[shuffle.below(k + 1)]);}
   }
+  using Guess = Eigen::Matrix<typename PT::Scalar, 3, 3>;
   FindRigidTransformationByICP<PT> icp(0.2);
   if (kdTreeOverload) {
     KdTree<PT> srcTree(src), tgtTree(tgt);
-    found = icp.find(src, srcTree, tgt, tgtTree, Eigen::Matrix3d::Identity(), FindRigidTransformationByICP<PT>::EstimationMethod::LEAST_SQUARES);
+    found = icp.find(src, srcTree, tgt, tgtTree, Guess::Identity(), FindRigidTransformationByICP<PT>::EstimationMethod::LEAST_SQUARES);
   } else {
-    found = icp.find(src, tgt, Eigen::Matrix3d::Identity(), FindRigidTransformationByICP<PT>::EstimationMethod::LEAST_SQUARES);
+    found = icp.find(src, tgt, Guess::Identity(), FindRigidTransformationByICP<PT>::EstimationMethod::LEAST_SQUARES);
   }
-  est = icp.getTransformation();
+  est = icp.getTransformation().template cast<double>();
   return true;
 }
 
@@ -100,6 +101,8 @@ void icpBody(vf::Ctx & c)
   if (treeOverload) {c.label("find-overload-with-caller-built-kd-trees");}
   int targetOrder = static_cast<int>(c.s.pick("target_point_order", {4, 1, 1}));
   if (targetOrder != 0) {c.label("target-scan-stored-in-another-point-order");}
+  const bool single = c.s.flag("single_precision_points", 1, 4);
+  if (single) {c.label(homogeneous ? "HomogeneousCoordinates2f" : "Vector2f");}
   c.commit();
   if (inK3Region(tx, ty, th)) {
     c.label("excluded-known-K3-region");
@@ -107,7 +110,9 @@ void icpBody(vf::Ctx & c)
   }
   Eigen::Matrix3d est;
   bool found;
-  if (homogeneous) {runIcp<HomogeneousCoordinates2d>(tx, ty, th, est, found, treeOverload, targetOrder);} else {runIcp<Eigen::Vector2d>(tx, ty, th, est, found, treeOverload, targetOrder);}
+  if (single) {
+    if (homogeneous) {runIcp<HomogeneousCoordinates2f>(tx, ty, th, est, found, treeOverload, targetOrder);} else {runIcp<Eigen::Vector2f>(tx, ty, th, est, found, treeOverload, targetOrder);}
+  } else if (homogeneous) {runIcp<HomogeneousCoordinates2d>(tx, ty, th, est, found, treeOverload, targetOrder);} else {runIcp<Eigen::Vector2d>(tx, ty, th, est, found, treeOverload, targetOrder);}
   Eigen::Matrix3d truth = (Eigen::Translation2d(tx, ty) * Eigen::Rotation2Dd(th)).matrix();
   double err = (est - truth).norm();
   c.maxStat("icp-frobenius-error", found ? err : 1e9);
@@ -216,7 +221,7 @@ void runRansac(vf::Ctx & c, int n, double sigma, double outlierFraction, double 
   Eigen::Matrix<double, D + 1, D + 1> truth = Eigen::Matrix<double, D + 1, D + 1>::Identity();
   truth.template block<D, D>(0, 0) = R;
   truth.template block<D, 1>(0, D) = t;
-  Eigen::Matrix<double, D + 1, D + 1> est = model.getTransformation();
+  Eigen::Matrix<double, D + 1, D + 1> est = model.getTransformation().template cast<double>();
   double err = (est - truth).norm();
   c.maxStat("ransac-frobenius-error", err);
   c.maxStat("ransac-rmse/sigma", model.getRootMeanSquareError() / sigma);
@@ -226,7 +231,7 @@ void runRansac(vf::Ctx & c, int n, double sigma, double outlierFraction, double 
 
 void ransacBody(vf::Ctx & c)
 {
-  int type = static_cast<int>(c.s.i("point_type", 0, 3));
+  int type = static_cast<int>(c.s.i("point_type", 0, 7));
   int n = static_cast<int>(c.s.i("pairs", 40, 400));
   double sigma = c.s.r("sigma", 0.005, 0.03);
   size_t ok = c.s.pick("outlier_class", {1, 2, 2});
@@ -237,7 +242,8 @@ void ransacBody(vf::Ctx & c)
   if (permuted) {c.label("target-set-stored-in-another-order");}
   bool coherent = c.s.flag("outliers_form_a_second_rigid_body", 1, 4);
   if (coherent && frac >= 0.05) {c.label("coherent-outliers(second-rigid-body)");}
-  static const char * tn[] = {"Vector2d", "HomogeneousCoordinates2d", "Vector3d", "HomogeneousCoordinates3d"};
+  static const char * tn[] = {"Vector2d", "HomogeneousCoordinates2d", "Vector3d", "HomogeneousCoordinates3d",
+    "Vector2f", "HomogeneousCoordinates2f", "Vector3f", "HomogeneousCoordinates3f"};
   c.label(tn[type]);
   if (frac >= 0.05) {c.label(">=5%-outliers");}
   if (frac >= 0.25) {c.label(">=25%-outliers");}
@@ -248,7 +254,11 @@ void ransacBody(vf::Ctx & c)
     case 0: runRansac<Eigen::Vector2d>(c, n, sigma, frac, motion, seed, tn[0], permuted, coherent); break;
     case 1: runRansac<HomogeneousCoordinates2d>(c, n, sigma, frac, motion, seed, tn[1], permuted, coherent); break;
     case 2: runRansac<Eigen::Vector3d>(c, n, sigma, frac, motion, seed, tn[2], permuted, coherent); break;
-    default: runRansac<HomogeneousCoordinates3d>(c, n, sigma, frac, motion, seed, tn[3], permuted, coherent); break;
+    case 3: runRansac<HomogeneousCoordinates3d>(c, n, sigma, frac, motion, seed, tn[3], permuted, coherent); break;
+    case 4: runRansac<Eigen::Vector2f>(c, n, sigma, frac, motion, seed, tn[4], permuted, coherent); break;
+    case 5: runRansac<HomogeneousCoordinates2f>(c, n, sigma, frac, motion, seed, tn[5], permuted, coherent); break;
+    case 6: runRansac<Eigen::Vector3f>(c, n, sigma, frac, motion, seed, tn[6], permuted, coherent); break;
+    default: runRansac<HomogeneousCoordinates3f>(c, n, sigma, frac, motion, seed, tn[7], permuted, coherent); break;
   }
 }
 
